@@ -43,6 +43,7 @@ GRID_FULL = (
     + [Fraction(1, 2), Fraction(-1, 2), Fraction(3, 2), Fraction(5, 2), Fraction(1, 4), Fraction(-3, 2)]
 )
 GRID_QUICK = [Fraction(k) for k in (-2, -1, 0, 1, 2, 3, 4, 6, 12)] + [Fraction(1, 2), Fraction(3, 2)]
+GRID_TINY = [Fraction(k) for k in (-2, 0, 1, 3, 6)] + [Fraction(1, 2)]
 ACTIVE = {"grid": GRID_QUICK, "name": "quick"}
 
 
@@ -199,6 +200,8 @@ class SymProvider:
                 cons.append(tag)
             elif self.mode == "grid":
                 cons.append(z3.Or([z == RV(g) for g in ACTIVE["grid"]]))
+            elif self.mode == "tiny":
+                cons.append(z3.Or([z == RV(g) for g in GRID_TINY]))
             ent = (z, tag, z3.And(cons) if len(cons) > 1 else cons[0])
             SymProvider._cache[key] = ent
         z, tag, con = ent
